@@ -114,6 +114,20 @@ static void gen_deep(bb_t *x, char root, int depth, bool arrays)
     else { for (int i = 0; i < depth; i++) { bb_byte(x, 0x40); if (i + 1 < depth) { uint8_t a = 'a'; enc_blob(x, 0x14, &a, 1); } } for (int i = 0; i < depth; i++) bb_byte(x, 0x41);
            if (root == 'A') { bb_t y = {0}; bb_byte(&y, 0x42); bb_put(&y, x->b, x->n); bb_byte(&y, 0x43); x->n = 0; bb_put(x, y.b, y.n); free(y.b); } }
 }
+/* mixed deep nesting: nobj nested objects (member "a"), the innermost holding "a": narr nested arrays around [1,"x",2]
+ * and a second member "z": 7 - array chains that start below several object levels, with elements at the bottom */
+static void gen_deep_mixed(bb_t *x, char root, int nobj, int narr)
+{
+    x->n = 0; uint8_t a = 'a', z = 'z';
+    if (root == 'A') bb_byte(x, 0x42);
+    for (int i = 0; i < nobj; i++) { bb_byte(x, 0x40); enc_blob(x, 0x14, &a, 1); }
+    for (int i = 0; i < narr; i++) bb_byte(x, 0x42);
+    enc_int(x, 0x10, 1); { uint8_t sx = 'x'; enc_blob(x, 0x14, &sx, 1); } enc_int(x, 0x10, 2);
+    for (int i = 0; i < narr; i++) bb_byte(x, 0x43);
+    enc_blob(x, 0x14, &z, 1); enc_int(x, 0x10, 7);
+    for (int i = 0; i < nobj; i++) bb_byte(x, 0x41);
+    if (root == 'A') bb_byte(x, 0x43);
+}
 static void mutate(rng_t *r, bb_t *x)
 {
     if (x->n == 0) return;
